@@ -61,7 +61,7 @@ def _loop_specs(u):
     return {"%s:%s#%d" % k: v for k, v in u.loops.items()}
 
 
-def run_conc(u, params, given=None, rng=None, timeout=20):
+def run_conc(u, params, given=None, rng=None, timeout=60):
     """one concrete execution against the really imported module"""
     from . import core, shadow
     from .unit import UConc
@@ -77,7 +77,10 @@ def run_conc(u, params, given=None, rng=None, timeout=20):
         res["status"] = "rejected"
     except _Timeout:
         res["status"] = "timeout"
-        U.records.append(("terminates within %ds" % timeout, "failed", None, []))
+        if getattr(u, "terminates", False):
+            U.records.append(("terminates within %ds" % timeout, "failed", None, []))
+        else:
+            res["error"] = "concrete run exceeded %ds (machine load?): undecided, not a violation" % timeout
     except Unsupported as e:
         res["status"] = "unsupported"
         res["error"] = str(e)
@@ -211,6 +214,10 @@ def _job(args):
             out["sample_inputs"].append({"inputs": _jsonable(r["drawn"]), "clauses": [[rec[0], rec[1]] for rec in r["records"]][:6]})
         key = hashlib.sha1(json.dumps(r["drawn"], sort_keys=True, default=str).encode()).hexdigest()
         distinct.add(key)
+        if r["status"] == "timeout" and not getattr(u, "terminates", False):
+            out["status"] = "unsupported"
+            out["error"] = r["error"]
+            break
         if r["status"] in ("crash", "unsupported"):
             out["sample_failures"].append({"inputs": r["drawn"], "failed": [["harness " + r["status"], r["error"]]],
                                            "crash": True})
